@@ -40,6 +40,7 @@ type stats struct {
 	Skipped    []string       `json:"map_ranges_skipped"`
 	TouchNames map[string]int `json:"touch_names"`
 	RangeSites []string       `json:"map_range_sites"`
+	Globals    []string       `json:"package_level_variables_registered"`
 }
 
 func main() {
@@ -105,6 +106,7 @@ func main() {
 		os.Exit(2)
 	}
 	sort.Strings(st.RangeSites)
+	sort.Strings(st.Globals)
 	sb, _ := json.MarshalIndent(st, "", " ")
 	os.WriteFile(filepath.Join(*out, "stats.json"), sb, 0o644)
 	fmt.Printf("instr: %d files, %d sync imports, %d touch sites, %d map ranges (%d skipped)\n", st.Files, st.SyncShims, st.Touches, st.MapRanges, len(st.Skipped))
@@ -142,6 +144,7 @@ type touch struct {
 func instrumentFile(p *packages.Package, f *ast.File, st *stats) bool {
 	changed := false
 	needVsched := false
+	var regs []ast.Decl
 
 	// 1. sync import
 	for _, is := range f.Imports {
@@ -359,6 +362,36 @@ func instrumentFile(p *packages.Package, f *ast.File, st *stats) bool {
 			*list = out
 			return true
 		})
+		needVsched = true
+		changed = true
+	}
+
+	// 4. package-level variables: registered so that every execution can start from their initial values
+	for _, dcl := range f.Decls {
+		gd, ok := dcl.(*ast.GenDecl)
+		if !ok || gd.Tok != token.VAR {
+			continue
+		}
+		for _, s := range gd.Specs {
+			for _, nm := range s.(*ast.ValueSpec).Names {
+				v, ok := info.Defs[nm].(*types.Var)
+				if !ok || nm.Name == "_" || isSyncType(v.Type()) || !(isDstPkg(v.Pkg()) || isResolverPkg(v.Pkg())) {
+					continue
+				}
+				name := pkgShort(v.Pkg()) + "." + nm.Name
+				regs = append(regs, &ast.GenDecl{Tok: token.VAR, Specs: []ast.Spec{&ast.ValueSpec{
+					Names: []*ast.Ident{ast.NewIdent("_")},
+					Values: []ast.Expr{&ast.CallExpr{
+						Fun:  &ast.SelectorExpr{X: ast.NewIdent("vsched_"), Sel: ast.NewIdent("RegisterGlobal")},
+						Args: []ast.Expr{&ast.BasicLit{Kind: token.STRING, Value: strconv.Quote(name)}, &ast.UnaryExpr{Op: token.AND, X: ast.NewIdent(nm.Name)}},
+					}},
+				}}})
+				st.Globals = append(st.Globals, name)
+			}
+		}
+	}
+	if len(regs) > 0 {
+		f.Decls = append(f.Decls, regs...)
 		needVsched = true
 		changed = true
 	}
